@@ -73,9 +73,15 @@ class StubMatch:
     self._g = groups
 
   def group(self, *names):
+    if not names:
+      return self._g[0]
     if len(names) == 1:
       return self._g[names[0]]
     return tuple(self._g[n] for n in names)
+
+  def groups(self, default=None):
+    ks = sorted(k for k in self._g if isinstance(k, int) and k > 0)
+    return tuple(self._g[k] if self._g[k] is not None else default for k in ks)
 
   def __getitem__(self, n):
     return self._g[n]
@@ -153,3 +159,63 @@ class _StubRegex2(StubRegex):
       g = self._ph[key]
       return None if g is None else StubMatch(g)
     return getattr(self._real, how)(s, *a)
+
+
+class TokenRegex:
+  """stands for a compiled pattern of the repository when the SUBJECT may contain format tokens (text written earlier in the same
+  symbolic run, e.g. a time attribute `⟦sym3⟧:⟦sym4⟧:⟦sym5⟧.⟦sym6⟧`): every token is replaced by as many `0` digits as its format's
+  minimum width, the real pattern decides on that text, and the groups are returned as the corresponding pieces of the ORIGINAL
+  subject (tokens intact), so that int() / Fraction() of a group go through core.number_from_text.  Assumes that a formatted value
+  fills exactly its minimum width (checked where the number is read: core._token_digits) and that the pattern treats all digits
+  alike.  Subjects without tokens go to the real pattern."""
+
+  def __init__(self, real):
+    self._real = real
+    self.pattern = real.pattern
+
+  def _m(self, how, s, *a):
+    if not core.has_tokens(s):
+      return getattr(self._real, how)(s, *a)
+    pieces = re.split("(\u27e6sym[0-9]+\u27e7)", s)
+    concrete, spans = "", []          # spans: (start in concrete, end in concrete, original piece)
+    for p in pieces:
+      if p.startswith("\u27e6sym"):
+        _val, spec = core.cur().tokens[int(p[4:-1])]
+        sm = re.fullmatch("0?([0-9]*)d?", spec or "")
+        if sm is None:
+          raise Unsupported(f"token with format {spec!r} in a matched subject")
+        rep = "0" * int(sm.group(1) or "1")
+      else:
+        rep = p
+      spans.append((len(concrete), len(concrete) + len(rep), p))
+      concrete += rep
+    m = getattr(self._real, how)(concrete, *a)
+    if m is None:
+      return None
+
+    def original(lo, hi):
+      out = ""
+      for (a0, a1, p) in spans:
+        if a1 <= lo or a0 >= hi:
+          continue
+        if p.startswith("\u27e6sym"):
+          if not (lo <= a0 and a1 <= hi):
+            raise Unsupported("a group boundary falls inside a formatted value")
+          out += p
+        else:
+          out += p[max(lo, a0) - a0: min(hi, a1) - a0]
+      return out
+
+    groups = {0: original(*m.span(0))}
+    for i in range(1, (self._real.groups or 0) + 1):
+      groups[i] = None if m.group(i) is None else original(*m.span(i))
+    for name, i in self._real.groupindex.items():
+      groups[name] = groups[i]
+    return StubMatch(groups)
+
+  def search(self, s, *a): return self._m("search", s, *a)
+  def match(self, s, *a): return self._m("match", s, *a)
+  def fullmatch(self, s, *a): return self._m("fullmatch", s, *a)
+
+  def __getattr__(self, n):
+    return getattr(self._real, n)
